@@ -260,6 +260,8 @@ def run(chk):
         msgs = set()
         for o in initialize_outcomes(chk, fi.cls or c, fi):
             for ob, msg in judge_initialize(o):
+                if ob not in ("rows", "kept"):
+                    continue  # routing columns are C13's subject
                 key = f"{fi.key}|complement" if ob == "rows" else f"{fi.key}|kept-rows-complete"
                 if (key, msg[:80]) in msgs:
                     continue
